@@ -126,10 +126,10 @@ def depth2(reduced=True):
 RANGES = [(-INF, 1.0), (1.0, INF), (1.0, 1.0), (0.0, 1.5)]
 
 
-def roots_numeric(name, e, V=V3):
-    for (lb, ub) in RANGES:
+def roots_numeric(name, e, V=V3, reduced=False):
+    for (lb, ub) in (RANGES[:1] + RANGES[2:3] if reduced else RANGES):
         yield ('con %s in [%g,%g]' % (name, lb, ub), Model(V, acons=[(e, {}, lb, ub)]))
-    for s in ('min', 'max'):
+    for s in (('min',) if reduced else ('min', 'max')):
         yield ('%s %s' % (s, name), Model(V, acons=[(None, {0: 1.0, 1: 1.0}, -INF, 3.0)], obj=(s, e, {})))
 
 
@@ -142,10 +142,12 @@ def family_shapes(tier):
     d1n, d1l = depth1(all_leaves=(tier == 'thorough'))
     d2n, d2l = depth2()
     seen = set()
+    d1set = set(e for _, e in d1n)
     for name, e in d1n + d2n:
         if e in seen: continue
         seen.add(e)
-        yield from roots_numeric(name, e)
+        # quick: depth-2 shapes get the roots {<=1, ==1, min}; depth-1 shapes and thorough get all six
+        yield from roots_numeric(name, e, reduced=(tier == 'quick' and e not in d1set))
     for name, e in d1l + d2l:
         if e in seen: continue
         seen.add(e)
